@@ -589,6 +589,9 @@ pub fn analyze(sc: &StreamScenario, out: &StreamOutcome) -> Analysis {
                                     let later = model.expects.iter().skip(nf + 1).position(|e| render_expect(e) == got);
                                     let kind = if gate && same_modulo_gate(exp, res) {
                                         "gate.wrong_decision"
+                                    } else if matches!(exp, Expect::BadVersion(_)) && later.is_some() {
+                                        // the version error that was due here never surfaced
+                                        "gate.rejection_lost"
                                     } else if let Some(k) = later {
                                         if k == 0 { "order.frame_lost" } else { "order.frames_lost" }
                                     } else if nf > 0 && render_expect(&model.expects[nf - 1]) == got {
@@ -596,7 +599,7 @@ pub fn analyze(sc: &StreamScenario, out: &StreamOutcome) -> Analysis {
                                     } else {
                                         "order.wrong_result"
                                     };
-                                    if !after_rejection || kind == "gate.wrong_decision" {
+                                    if !after_rejection || kind.starts_with("gate.") {
                                         vio.push(v(kind, format!("frame {} (of {}): expected {}, read returned {}", nf, model.expects.len(), short(&want), short(&got))));
                                     }
                                     dead = true;
